@@ -229,7 +229,7 @@ fn long_token() -> impl Strategy<Value = String> {
         0i64, 1, 7, 8, 9, 10, 15, 16, 255, 256, 32767, 32768, 32769, 65534, 65535, 65536, 65537, 99999, 2147483647, 2147483648, 2147483649, 4294967295, 4294967296, 4294967297,
         9999999999, 1 << 40,
     ]);
-    prop_oneof![
+    crate::pick![
         // numbers at the edges, every radix, every sign position, leading zeros
         6 => (edge, 0u8..5, 0u8..3, 0u8..4, 0u8..3).prop_map(|(v, radix, sign, zeros, pre0)| {
             let digits = match radix { 0 | 4 => format!("{v}"), 1 => format!("{v:x}"), 2 => format!("{v:o}"), _ => format!("{v:b}") };
@@ -251,7 +251,32 @@ fn long_token() -> impl Strategy<Value = String> {
         2 => "[+\\-#xob018ag^r_é😀.,:;'\"@/]{1,7}".prop_map(|s| s.replace([';', '\n', ' '], "_")),
         // longer strings over the alphabet
         3 => prop::collection::vec(prop::sample::select(ALPHABET.to_vec()), 5..9).prop_map(|v| v.into_iter().collect()),
+        // a well-formed token in which one character is replaced by a non-ASCII character with the
+        // same low byte (U+0161 for 'a', U+3042 for 'B', U+0130 for '0', ...): never an integer
+        2 => (prop::sample::select(vec!["x1a", "xBEEF", "0x7f", "#12", "-#3", "b101", "o17", "x-1c", "^2", "^-x1", "ag+1", "xg-0x2", "r1", "42", "0b11", "+xff"]), any::<u16>(), 1u32..0x40)
+            .prop_map(|(t, at, k)| collide(t, at, k)),
     ]
+}
+
+/// Replace the character at a (scaled) position of `t` by the character `k * 0x100` code points
+/// above it (same low byte when truncated to `u8`); falls back to `k * 0x10000` planes.
+pub fn collide(t: &str, at: u16, k: u32) -> String {
+    let cs: Vec<char> = t.chars().collect();
+    let i = (at as usize * cs.len()) >> 16;
+    let c = cs[i] as u32;
+    let repl = char::from_u32(c + k * 0x100).filter(|r| !r.is_whitespace() && !r.is_control()).or_else(|| char::from_u32(c + 0x10000)).unwrap_or('é');
+    cs.iter().enumerate().map(|(j, ch)| if j == i { repl } else { *ch }).collect()
+}
+
+/// Free-form tokens for the coverage-guided stage: any characters except blanks, separators and
+/// control characters (how those split a line is not part of the token grammar).
+fn free_token() -> impl Strategy<Value = String> {
+    let ch = crate::pick![
+        6 => prop::sample::select(ALPHABET.to_vec()),
+        3 => prop::sample::select("23456789cdefABCDEFXOBRGlz.,:@/'\"=<>!~*()[]é😀šŁあ".chars().collect::<Vec<_>>()),
+        1 => any::<char>(),
+    ];
+    prop::collection::vec(ch, 1..12).prop_map(|v| v.into_iter().map(|c| if c.is_whitespace() || c.is_control() || c == ';' { '_' } else { c }).collect())
 }
 
 // ---------------------------------------------------------------------------------------------
@@ -565,6 +590,15 @@ impl Prop for C14 {
     }
     fn needs_cli(&self) -> bool {
         true
+    }
+    fn fuzz_strategy(&self) -> Option<BoxedStrategy<Value>> {
+        let tokens = prop::collection::vec(crate::pick![1 => long_token(), 2 => free_token()], 1..6).prop_map(|tokens| Case::Tokens { tokens, with_break: true });
+        let transport = (prop::collection::vec(prop::sample::select(TRANSPORT_POOL.to_vec()), 1..9), any::<u16>(), any::<bool>(), any::<bool>(), any::<u8>()).prop_map(|(cmds, split, sep_arg, sep_stdin, decorate)| {
+            let commands: Vec<String> = cmds.iter().map(|s| s.to_string()).collect();
+            let split = (split as usize * (commands.len() + 1)) >> 16;
+            Case::Transport { commands, split, sep_arg, sep_stdin, decorate: decorate % 255 }
+        });
+        Some(crate::fuzzmode::jv(crate::pick![3 => tokens, 1 => transport]))
     }
     fn replay(&self, _ctx: &Ctx, case: &Value) -> Obs {
         match serde_json::from_value::<Case>(case.clone()) {
